@@ -665,7 +665,7 @@ class Assembler:
                     raise ExtractError('unsupported construct: control transfer inside the lifted initializer of `let %s` in fn %s' % (lf['let_init'], fnname))
             body = ed.apply(s.text, s.t[ka_][1], s.t[kb_][2])
             res = spec.get('result')
-            head = 'pub fn %s%s(%s) -> %s\n' % (lf['name'], lf.get('generics', ''), lf['params'], ('(%s: %s)' % (res, lf['ret'])) if res else lf['ret'])
+            head = ''.join(a_ + '\n' for a_ in spec.get('attrs', [])) + 'pub fn %s%s(%s) -> %s\n' % (lf['name'], lf.get('generics', ''), lf['params'], ('(%s: %s)' % (res, lf['ret'])) if res else lf['ret'])
             txt = self.clauses('requires', spec.get('requires', []), '    ', fnname)
             ens = list(spec.get('ensures', []))
             txt += self.clauses('ensures', ens, '    ', fnname)
@@ -715,7 +715,7 @@ class Assembler:
         body = ed.apply(s.text, s.t[kopen][2], s.t[kclose][1])
         res = spec.get('result')
         ret = lf['ret']
-        head = 'pub fn %s%s(%s) -> %s\n' % (lf['name'], lf.get('generics', ''), lf['params'], ('(%s: %s)' % (res, ret)) if res else ret)
+        head = ''.join(a_ + '\n' for a_ in spec.get('attrs', [])) + 'pub fn %s%s(%s) -> %s\n' % (lf['name'], lf.get('generics', ''), lf['params'], ('(%s: %s)' % (res, ret)) if res else ret)
         if lf.get('where'):
             head = head.rstrip('\n') + '\n    where %s\n' % lf['where']
         txt = self.clauses('requires', spec.get('requires', []), '    ', fnname)
